@@ -1,6 +1,6 @@
 (* C19 -- property theorems only. *)
 From Coq Require Import QArith Qabs List Bool Arith Permutation.
-From WNTRV Require Import C19.Model C19.Proofs.
+From WNTRV Require Import C19.Model C19.Proofs C19.Poly.
 Import ListNotations.
 
 Theorem C19_split_length_conserved : forall L f, fst (split_lengths L f) + snd (split_lengths L f) == L.
@@ -27,8 +27,19 @@ Proof. exact skeleton_conserves. Qed.
 Theorem C19_total_demand_invariant : forall (w : nat -> Q) a b,
   Permutation a b -> fold_right (fun e acc => w e + acc) 0 a == fold_right (fun e acc => w e + acc) 0 b.
 Proof. exact total_perm. Qed.
+(* pipes drawn with vertices: cutting the polyline at a point that becomes the last vertex of the first part and the first of the second keeps
+   the total drawn length, and on an axis-parallel segment the interpolated point divides the drawn length in the ratio u : 1 - u
+   (the correspondence evaluates `poly_split_ok` -- no vertex lost or moved, parts of drawn length f L and (1 - f) L -- on what
+   split_pipe / break_pipe return for generated polylines) *)
+Theorem C19_polyline_cut : forall (a : list pt) (x j : pt) (b : list pt), polylen ((x :: a) ++ [j]) + polylen (j :: b) == polylen ((x :: a) ++ j :: b).
+Proof. exact polylen_cut. Qed.
+Theorem C19_segment_interp : forall x0 x1 y u, 0 <= u <= 1 ->
+  seglen (x0, y) (interp x0 x1 u, y) == u * seglen (x0, y) (x1, y) /\ seglen (interp x0 x1 u, y) (x1, y) == (1 - u) * seglen (x0, y) (x1, y).
+Proof. exact seglen_interp_x. Qed.
 Print Assumptions C19_split_length_conserved.
 Print Assumptions C19_split_hydraulics_same.
 Print Assumptions C19_split_hydraulics_minor_refuted.
 Print Assumptions C19_skeleton_conserves.
 Print Assumptions C19_total_demand_invariant.
+Print Assumptions C19_polyline_cut.
+Print Assumptions C19_segment_interp.
